@@ -161,7 +161,19 @@ func c09Run(c *fw.Case, typ byte, keyType string, proto protocol.Protocol, g gri
 		defer func() { histStackFactory = old }()
 		c.Count("applier-protocol-assigned-after-construction", 1)
 	}
-	runHistoryProto(c, plan, keyType, 18, proto, true, "C01")
+	// both configured hash algorithms (the protocol lists SHA-256 first, SHA-512 second)
+	runHistoryProto(c, plan, keyType, uint64(18+c.Idx%2), proto, true, "C01")
+}
+
+// valueValidator is a validator passed BY VALUE whose value is the zero value of its type (e.g. a server-time validator whose
+// clock reads 0): configured is configured.
+type valueValidator struct{ serverTime int64 }
+
+var valueValidatorCalls [][2]int64
+
+func (v valueValidator) Validate(from, until int64) error {
+	valueValidatorCalls = append(valueValidatorCalls, [2]int64{from, until})
+	return nil
 }
 
 type recValidator struct {
@@ -301,6 +313,17 @@ func c09Validator(c *fw.Case) {
 			if len(rv.calls) != 1 || rv.calls[0] != want {
 				c.Failf("time-validator-arguments", w, "time validator received %v, expected one call with %v", rv.calls, want)
 				continue
+			}
+			// the same request with a validator handed over by value (zero value / non-zero value of a struct type)
+			for _, vv := range []valueValidator{{}, {serverTime: 5}} {
+				valueValidatorCalls = nil
+				sut.NewStack(proto, operationparser.WithAnchorTimeValidator(vv)).Parser.Parse("did:sidetree", s.Built.Request)
+				c.Count("by-value-validator-calls", 1)
+				if len(valueValidatorCalls) != 1 || valueValidatorCalls[0] != want {
+					w["validator"] = fmt.Sprintf("%#v", vv)
+					c.Failf("by-value-time-validator-not-consulted", w, "a time validator configured by value (%#v) received %v, expected one call with %v", vv, valueValidatorCalls, want)
+					break
+				}
 			}
 			if (rv.err != nil) != (err != nil) {
 				c.Failf("time-validator-verdict-ignored", w, "validator verdict %v but Parse returned %v", rv.err, err)
